@@ -551,6 +551,20 @@ func (s *BlockListSpec) decode(content *hcl.BodyContent, blockLabels []blockLabe
 		}
 	}
 
+	if !cty.CanListVal(elems) {
+		// Unification can succeed while the element types still differ in
+		// a dynamically-typed position (for example when one block's value
+		// contains a placeholder for an erroneous attribute), in which case
+		// cty.ListVal would panic.
+		diags = append(diags, &hcl.Diagnostic{
+			Severity: hcl.DiagError,
+			Summary:  fmt.Sprintf("Unconsistent argument types in %s blocks", s.TypeName),
+			Detail:   "Corresponding attributes in all blocks of this type must be the same.",
+			Subject:  &sourceRanges[0],
+		})
+		return cty.UnknownVal(s.impliedType().WithoutOptionalAttributesDeep()), diags
+	}
+
 	return cty.ListVal(elems), diags
 }
 
@@ -836,6 +850,20 @@ func (s *BlockSetSpec) decode(content *hcl.BodyContent, blockLabels []blockLabel
 			}
 			elems[i] = newV
 		}
+	}
+
+	if !cty.CanSetVal(elems) {
+		// Unification can succeed while the element types still differ in
+		// a dynamically-typed position (for example when one block's value
+		// contains a placeholder for an erroneous attribute), in which case
+		// cty.SetVal would panic.
+		diags = append(diags, &hcl.Diagnostic{
+			Severity: hcl.DiagError,
+			Summary:  fmt.Sprintf("Unconsistent argument types in %s blocks", s.TypeName),
+			Detail:   "Corresponding attributes in all blocks of this type must be the same.",
+			Subject:  &sourceRanges[0],
+		})
+		return cty.UnknownVal(s.impliedType().WithoutOptionalAttributesDeep()), diags
 	}
 
 	return cty.SetVal(elems), diags
